@@ -1,4 +1,5 @@
 import Zog.Basic
+import Zog.Regex
 
 /-!
 # Built-in predicates   — C20
@@ -168,44 +169,18 @@ def specialRanges : List (Nat × Nat) := [(33, 47), (58, 64), (91, 96), (123, 12
 
 def containsInRanges (rs : List (Nat × Nat)) : DVal → Bool := strPred (fun s => s.toList.any (inRanges rs))
 
-/-! ## grammars of the two shipped regexes (recognisers written from the stated grammar) -/
+/-! ## the two shipped regular expressions
+The model of `UUID()` IS the UUID grammar (`Rx.uuidGrammar`: 8-4-4-4-12 hexadecimal digits); the
+model of `Email()` is the backtracking semantics (`Rx.Re.search`) of the e-mail pattern as written in
+`Zog/Regex.lean`. `Zog/Props/C20.lean` proves that the patterns REGENERATED from string.go
+(`Gen.uuidRegex`, `Gen.emailRegex`) are these patterns, that the UUID pattern decides exactly
+`uuidGrammar` and that the e-mail pattern decides exactly the stated grammar `Rx.IsEmail`. -/
 
-def isHex (c : Char) : Bool :=
-  ('0' ≤ c && c ≤ '9') || ('a' ≤ c && c ≤ 'f') || ('A' ≤ c && c ≤ 'F')
-
-def isAlnum (c : Char) : Bool :=
-  ('0' ≤ c && c ≤ '9') || ('a' ≤ c && c ≤ 'z') || ('A' ≤ c && c ≤ 'Z')
-
-/-- 8-4-4-4-12 hex digits -/
-def isUUIDChars (cs : List Char) : Bool :=
-  cs.length == 36 &&
-  (cs.zipIdx.all (fun (c, i) => if i == 8 || i == 13 || i == 18 || i == 23 then c == '-' else isHex c))
+def isUUIDChars (cs : List Char) : Bool := Rx.uuidGrammar cs
 
 def isUUID (s : String) : Bool := isUUIDChars s.toList
 
-def emailLocalChar (c : Char) : Bool :=
-  isAlnum c || ".!#$%&'*+/=?^_`{|}~-".toList.contains c
-
-/-- a DNS-like label: alnum, then up to 61 alnum-or-hyphen and a final alnum (1..63 chars) -/
-def isLabel (cs : List Char) : Bool :=
-  match cs with
-  | [] => false
-  | [c] => isAlnum c
-  | c :: rest =>
-    isAlnum c && cs.length ≤ 63 && isAlnum (rest.getLast?.getD ' ') && rest.all (fun x => isAlnum x || x == '-')
-
-def splitOnChar (sep : Char) : List Char → List (List Char)
-  | [] => [[]]
-  | c :: cs =>
-    match splitOnChar sep cs with
-    | [] => [[]]
-    | h :: t => if c == sep then [] :: h :: t else (c :: h) :: t
-
-/-- local@label(.label)* -/
-def isEmailChars (cs : List Char) : Bool :=
-  match splitOnChar '@' cs with
-  | [loc, dom] => !loc.isEmpty && loc.all emailLocalChar && (splitOnChar '.' dom).all isLabel
-  | _ => false
+def isEmailChars (cs : List Char) : Bool := Rx.emailRe.search cs
 
 def isEmail (s : String) : Bool := isEmailChars s.toList
 
